@@ -22,7 +22,7 @@ ASSUMPTIONS = ['mean/std estimator is numpy mean/std of the leading min(N,len) s
                'rounding ties (pre-round value within 1e-9 of x.5) are excluded',
                'inputs whose squares overflow a double are outside the domain']
 REQUIRED_CLASSES = ['kind=real', 'kind=complex', 'kind=free_real', 'kind=free_complex', 'period>1', 'period<=0',
-                    'dist=const_inexact', 'dist=const_exact', 'dist=huge', 'dist=tiny', 'dist=lead_const', 'custom=scalar', 'custom=pair', 'dist=int_const', 'dist=int_var', 'period>256', 'period_numpy_int',
+                    'dist=const_inexact', 'dist=const_exact', 'dist=const_huge', 'dist=huge', 'dist=tiny', 'dist=lead_const', 'custom=scalar', 'custom=pair', 'dist=int_const', 'dist=int_var', 'period>256', 'period_numpy_int',
                     'mixed_clip', 'refresh_and_hold']
 
 FWHM_M = 2 * math.sqrt(2 * math.log(2))
@@ -40,6 +40,9 @@ arr_spec = st.one_of(
     st.fixed_dictionaries({'dist': st.just('lead_const'), 'n': st.integers(1, 60), 'm': st.integers(1, 40),
                            'seed': st.integers(0, 2 ** 20),
                            'a': st.sampled_from([0.1, 0.3, -0.7, 1.1, 7.7, 123.456])}),
+    # very large constants: the mean of n equal samples is not exact and the squared residual overflows
+    st.fixed_dictionaries({'dist': st.just('const_huge'), 'n': st.integers(1, 60), 'e': st.integers(150, 305),
+                           'sign': st.sampled_from([1, -1]), 'm': gen.finite(1.0, 9.99)}),
     st.fixed_dictionaries({'dist': st.just('const_exact'), 'n': st.integers(1, 60),
                            'a': st.sampled_from([0.0, 1.0, -2.5, 1024.0, 0.125])}),
     # integer-typed voltages (digitised data are integers): constant and varying
@@ -84,6 +87,8 @@ def make_array(spec):
         return np.array(spec['values'], dtype=float)
     if d in ('const_inexact', 'const_exact'):
         return np.full(spec['n'], spec['a'], dtype=float)
+    if d == 'const_huge':
+        return np.full(spec['n'], spec['sign'] * spec['m'] * 10.0 ** spec['e'], dtype=float)
     if d == 'int_const':
         a = spec['a'] % 100 if spec['dtype'] == 'uint8' else spec['a']
         return np.full(spec['n'], a, dtype=spec['dtype'])
@@ -302,6 +307,11 @@ def run_case(case, ctx):
                     check_out(obs, 'free_complex_im', q.imag, ei, mi, yi, xi, bits)
     for w in wlist:
         if issubclass(w.category, RuntimeWarning) and core._in_dir(w.filename, core.REPO):
+            if str(w.message).startswith('overflow encountered in') and 'cast' not in str(w.message):
+                # a product beyond 1e308 becomes +-inf and is clipped to the end of the range, which is the value the
+                # statement's formula gives (the outputs are compared above); only NaN / a wrapped cast is a failure
+                obs.count('float_overflow_then_clipped')
+                continue
             obs.fail('runtime_warning', f'{w.category.__name__}: {w.message} @ {w.filename}:{w.lineno}'[:300])
             break
     if refreshed_after_first and held_after_first:
